@@ -79,6 +79,7 @@ type Engine struct {
 	eqHook   func(st *State, a, b Value) (*Term, bool)
 	zeroHooks []func(t types.Type) (Value, bool)
 	Trace    bool
+	predDeclared map[string]bool
 	Deadline time.Time
 	initPhase bool
 }
@@ -170,7 +171,7 @@ func NewEngine(p *Program, solver string, timeoutMs int) (*Engine, error) {
 		baseMem:      map[*Object]Value{}, globals: map[*ssa.Global]*Object{},
 		asserts: map[string]*AssertRec{}, seenFinding: map[string]bool{}, seenViol: map[string]bool{},
 		encoded: map[string]bool{}, used: map[string]bool{}, opaque: map[string]int{},
-		EndReasons: map[string]int{}, Reached: map[string]int{},
+		EndReasons: map[string]int{}, Reached: map[string]int{}, predDeclared: map[string]bool{},
 		IntMode: true,
 	}
 	s, err := NewSolver(solver, timeoutMs)
@@ -185,6 +186,7 @@ func NewEngine(p *Program, solver string, timeoutMs int) (*Engine, error) {
 	}
 	registerIntrinsics(e)
 	registerLibHooks(e)
+	registerPathHooks(e)
 	return e, nil
 }
 
@@ -657,7 +659,7 @@ func (e *Engine) RunInit(pkgPath string) error {
 func (e *Engine) newState(prefix []bool) *State {
 	return &State{E: e, mem: map[*Object]Value{}, prefix: prefix, scratch: map[string]Value{},
 		decomp: map[string]*decompRec{}, sufDecomp: map[string]*decompRec{}, preDecomp: map[string]*decompRec{},
-		noSep: map[string]bool{}, subCache: map[string]*Term{}, condCache: map[string]bool{}, charset: map[string]string{}, maxlen: map[string]int{}}
+		noSep: map[string]bool{}, subCache: map[string]*Term{}, condCache: map[string]bool{}, charset: map[string]string{}, maxlen: map[string]int{}, minlen: map[string]int{}, predDecl: map[string]bool{}}
 }
 
 // Explore runs all paths of entry (depth first).
